@@ -1419,12 +1419,25 @@ EGLPNUM_TYPENAME_QSLIB_INTERFACE int EGLPNUM_TYPENAME_QSchange_senses (
 	char *sense)
 {
 	int rval = 0;
+	int i;
 
 	rval = check_qsdata_pointer (p);
 	CHECKRVALG (rval, CLEANUP);
 
 	rval = EGLPNUM_TYPENAME_ILLlib_chgsense (p->lp, num, rowlist, sense);
 	CHECKRVALG (rval, CLEANUP);
+
+	/* only the logical of a range row can be non-basic at its upper bound: a
+	 * stored basis must not keep that status for a row that stopped being one */
+	if (p->basis && p->basis->rstat)
+	{
+		for (i = 0; i < num; i++)
+		{
+			if (sense[i] != 'R' && rowlist[i] < p->basis->nrows &&
+					p->basis->rstat[rowlist[i]] == QS_ROW_BSTAT_UPPER)
+				p->basis->rstat[rowlist[i]] = QS_ROW_BSTAT_LOWER;
+		}
+	}
 
 	free_cache (p);
 
